@@ -342,6 +342,64 @@ def random_case(draw):
     return params, calls, flavour
 
 
+# ---- class hierarchies: every class's own constructor is the callable that gets converted arguments ----------
+HIER_SRC = '''
+import decimal
+class Base:
+    def __init__(self, a: float):
+        self.got = (a,)
+class Child(Base):
+    def __init__(self, a: float, b: int, c: str = "x"):
+        super().__init__(a)
+        self.got = (a, b, c)
+class Heir(Base):
+    pass
+class GrandChild(Child):
+    def __init__(self, d: decimal.Decimal, *rest: int):
+        super().__init__(1.0, 2)
+        self.got = (d, rest)
+'''
+HIER_CALLS = {"Base": (("2",), (2.0,)), "Child": (("1.5", "2", 3), (1.5, 2, "3")), "Heir": (("3",), (3.0,)),
+              "GrandChild": (("1.5", "7", "8"), "DEC")}
+
+
+def check_class_histories(col):
+    import decimal
+    import types as _types
+
+    names = list(HIER_CALLS)
+    orders = [o for k in (1, 2, 3, 4) for o in itertools.permutations(names, k)]
+    orders += [(a, a) for a in names] + [(a, b, a) for a in names for b in names if a != b]
+    for api in ("wrap", "bind"):
+        for order in orders:
+            m = _types.ModuleType("c10_hier")
+            exec(HIER_SRC, m.__dict__)  # noqa: S102
+            tl.clear_all()
+            made = {}
+            for n in order:
+                k, r = tl.call(bind if api == "bind" else wrap, getattr(m, n))
+                made[n] = (k, r)
+            for n in dict.fromkeys(order):
+                col.ev()
+                col.nt(f"hier|{api}|{order}|{n}")
+                col.label("class-hierarchy-history")
+                k, f = made[n]
+                case = {"hierarchy": True, "api": api, "order": list(order), "cls": n}
+                if k == "exc":
+                    col.violation("converted-per-parameter", case, f"{api}({n}) after {order} raised {tl.exc_name(f)}: {f}", bucket=f"hier|{api}|raises")
+                    continue
+                args, want = HIER_CALLS[n]
+                if want == "DEC":
+                    want = (decimal.Decimal("1.5"), (7, 8))
+                k2, obj = tl.call(f, *args)
+                got = getattr(obj, "got", None) if k2 == "ok" else None
+                if k2 == "exc" or snapshot(got) != snapshot(want):
+                    col.violation("converted-per-parameter", case,
+                                  f"{api} applied in the order {order}: {n}{args!r} gave its constructor {got!r}{'' if k2 == 'ok' else ' (raised ' + tl.exc_name(obj) + ')'}, expected {want!r}",
+                                  bucket=f"hier|{api}|{n}")
+    col.exhaustive_done = True
+
+
 # ---- runner interface ----------------------------------------------------------------------
 
 def plan(tier, seed):
@@ -350,10 +408,14 @@ def plan(tier, seed):
     n = 150 if tier == "quick" else 3000
     for k in range(8):
         shards.append({"kind": "random", "seed": seed * 1000 + k, "n": n})
+    shards.append({"kind": "hierarchies"})
     return shards
 
 
 def run_shard(shard, col):
+    if shard["kind"] == "hierarchies":
+        check_class_histories(col)
+        return
     if shard["kind"] == "table":
         rows = list(table_rows())[shard["lo"]:shard["hi"]]
         calls = candidate_calls()
@@ -371,6 +433,9 @@ def run_shard(shard, col):
 
 
 def replay(clause, case, col):
+    if case.get("hierarchy"):
+        check_class_histories(col)
+        return
     params = [tuple(p) for p in case["params"]]
     if case.get("metadata"):
         calls = []
